@@ -18,9 +18,70 @@ def rand_pots(rng, dom, cliques, scale):
     return out
 
 
+def run_lbp_exact(chk, n):
+    """FactorGraph.loopy_belief_propagation vs the extracted executable model Model/LBP.v (the term C16_loopy_model_exact_on_trees is about) on
+    exact rationals: positive potentials, trees and loopy graphs, every sweep count; 1e-9 relative."""
+    from fractions import Fraction
+    from mbi import Domain, Factor, CliqueVector, FactorGraph
+    import pgmgen
+    from common import ltok, qtok, parse_qlist
+    rng = chk.rng
+    lines, pend = [], []
+    for _ in range(n):
+        kind = rng.choice(['chain', 'star', 'tree3', 'disconnected', 'loop', 'dense'])
+        attrs, sizes, cliques = rgen.gen_structure(rng, kind)
+        cliques = list(dict.fromkeys(tuple(c) for c in cliques))
+        if any(len(set(c)) != len(c) for c in cliques):
+            continue
+        ids = pgmgen.ids_of(attrs); cfg = dict(zip(attrs, sizes))
+        dom = Domain(attrs, sizes)
+        # is the bipartite factor/variable graph a forest?  (two factors sharing two attributes already make a cycle)
+        par = {}
+        def find(z):
+            while par.setdefault(z, z) != z:
+                z = par[z]
+            return z
+        forest = True
+        for ci, cl in enumerate(cliques):
+            for a in cl:
+                ra, rb = find(('c', ci)), find(('a', a))
+                if ra == rb:
+                    forest = False
+                par[ra] = rb
+        total = rng.choice([1.0, 10.0, 500.0]); sweeps = rng.choice([1, 2, 3, 6]) if forest else rng.choice([1, 1, 2])     # on loopy graphs the exact rationals grow with every sweep
+        vals = {cl: [Fraction(rng.randint(1, 9), rng.randint(1, 9)) for _ in range(math.prod(cfg[a] for a in cl))] for cl in cliques}
+        info = dict(oracle='lbp-exact', structure=kind, forest=forest, attrs=attrs, sizes=sizes, cliques=[list(c) for c in cliques], total=total, sweeps=sweeps)
+        chk.count('lbp-exact.' + ('forest' if forest else 'loopy')); chk.case(('lbp-exact', json.dumps(info)), len(cliques) >= 2)
+        try:
+            with np.errstate(all='ignore'):
+                fg = FactorGraph(dom, cliques, total, convex=False, iters=sweeps)
+                pots = CliqueVector({cl: Factor(dom.project(cl), np.array([math.log(v.numerator) - math.log(v.denominator) for v in vals[cl]]).reshape([cfg[a] for a in cl])) for cl in cliques})
+                mg = fg.belief_propagation(pots)
+            code = [[float(v) for v in np.asarray(mg[cl].values, dtype=float).reshape(-1)] if list(mg[cl].domain.attrs) == list(cl) else None for cl in cliques]
+        except Exception as e:
+            chk.violation(dict(kind='exception', oracle='lbp', what=common.exc_kind(e)), 'FactorGraph.belief_propagation raised %s: %s' % (common.exc_kind(e), str(e)[:80]), info, found_input=True)
+            continue
+        parts = [pgmgen.dom_tok(attrs, sizes, ids), str(len(cliques))]
+        for cl in cliques:
+            parts += [ltok([ids[a] for a in cl]), ltok([(a, cfg[a]) for a in cl], lambda p: '%d %d' % (ids[p[0]], p[1])), ltok(vals[cl], qtok)]
+        parts += [str(sweeps), qtok(Fraction(total))]
+        lines.append('lbp ' + ' '.join(parts)); pend.append((info, code))
+    outs = common.run_model(lines, timeout=1800)
+    for (info, code), out in zip(pend, outs):
+        try:
+            tabs = [parse_qlist('[' + t.strip().strip('[]') + ']') for t in out.replace('] [', ']|[').split('|')]
+            agree = len(tabs) == len(code) and all(c is not None and len(c) == len(t) and all(abs(x - float(q)) <= 1e-9 * max(abs(float(q)), 1e-300) + 1e-12 * info['total'] for x, q in zip(c, t)) for c, t in zip(code, tabs))
+        except Exception:
+            agree = False
+        if not agree:
+            chk.violation(dict(kind='lbp-exact-model'), 'loopy_belief_propagation differs from the verified executable model after %d sweeps (%s)' % (info['sweeps'], info['structure']),
+                          dict(info, code=[c[:8] if c else c for c in code], model=out[:300]), found_input=False)
+
+
 def main(chk):
     from mbi import Domain, Factor, CliqueVector, RegionGraph, FactorGraph
     chk.prove()
+    run_lbp_exact(chk, 40 if chk.tier == 'quick' else 500)
     rng = chk.rng
     n = 60 if chk.tier == 'quick' else 800
     lines, pend = [], []
